@@ -50,7 +50,19 @@ theorem pres_modify (g : St → St) (h : ∀ s, (g s).bvars = s.bvars) : Pres (m
 
 theorem pres_getCell (c : Nat) : Pres (getCell c) := ⟨fun _ => rfl⟩
 theorem pres_setCell (c : Nat) (v : Val) : Pres (setCell c v) := ⟨fun _ => rfl⟩
-theorem pres_reifyM (v : Val) : Pres (reifyM v) := ⟨fun _ => rfl⟩
+theorem run_reifyM (v : Val) (s : St) :
+    (reifyM v).run.run s =
+      if expandsWithin s.heap reifyDepth v = true then (.ok (reify s.heap reifyDepth v), s) else (.error .unc, s) := by
+  unfold reifyM
+  by_cases h : expandsWithin s.heap reifyDepth v = true
+  · rw [if_pos h]
+    show (if expandsWithin s.heap reifyDepth v = true then _ else _ : M Val).run.run s = _
+    rw [if_pos h]; rfl
+  · rw [if_neg h]
+    show (if expandsWithin s.heap reifyDepth v = true then _ else _ : M Val).run.run s = _
+    rw [if_neg h]; rfl
+
+theorem pres_reifyM (v : Val) : Pres (reifyM v) := ⟨fun s => by rw [run_reifyM]; split <;> rfl⟩
 theorem pres_reflectM (v : Val) : Pres (reflectM v) := ⟨fun _ => rfl⟩
 theorem pres_mkClos (c : RClos) : Pres (mkClos c) := ⟨fun _ => rfl⟩
 theorem pres_get_bind {β} (f : St → M β) (h : ∀ s, ((f s).run.run s).2.bvars = s.bvars) :
@@ -106,7 +118,9 @@ macro "pres_step" : tactic => `(tactic| first
 
 macro "pres" : tactic => `(tactic| repeat pres_step)
 
-theorem pres_truthy (v : Val) : Pres (truthy v) := ⟨fun _ => rfl⟩
+theorem pres_truthy (v : Val) : Pres (truthy v) := by
+  unfold truthy
+  exact pres_bind (pres_reifyM v) (fun _ => pres_pure _)
 
 theorem pres_mutateM (t n : Val) : Pres (mutateM t n) := by
   unfold mutateM
